@@ -68,6 +68,7 @@ theorem C11_once_static (t : Tree) (hs : t.static = true) : ∀ (v n : Nat),
   | V a => intro v n; simp [run, labels]
   | N id => intro v n; simp [run, labels, Kind.label]
   | W id => intro v n; simp [run, labels, Kind.label]
+  | H id => intro v n; simp [run, labels, Kind.label]
 
 /-- … hence one Eval of a static composition logs, after the old log, exactly the syntactic sequence of its
     effects/continuations, all on the evaluating goroutine — and `k` Evals log it `k` times (`C11_once`
